@@ -223,6 +223,11 @@ func (w *World) buildResponse(req *http.Request, a *Ans, now time.Time) (*http.R
 	hdr := [][2]string{}
 	add := func(k, v string) { hdr = append(hdr, [2]string{k, v}) }
 	add("X-Verif-Tag", "~"+tag+"~")
+	if a.Sp == 2 || a.Sp == 5 {
+		// the origin sits behind another caching layer that uses the same field names for its own verdict
+		add("X-From-Cache", "1")
+		add("X-Httpcache-Status", "HIT")
+	}
 	if tok != "" {
 		add("X-Verif-Tok", "~"+tok+"~")
 		add("Content-Type", "text/plain; charset=utf-8")
